@@ -224,7 +224,10 @@ func v18AuthHeader(c *v18HCase, a int) string {
 			if y := strings.ToUpper(x); y != x {
 				return y
 			}
-			return strings.ToLower(x)
+			if y := strings.ToLower(x); y != x {
+				return y
+			}
+			return x + "q" // no letters at all: just make it differ
 		}
 		if len(c.user)%2 == 0 {
 			return pa + "Basic " + b64(flip(c.user)+":"+c.pass) + "\r\n"
